@@ -52,10 +52,8 @@ static uint64_t builtin_digest(void) {
 static void jh(uint64_t h) { fprintf(OUT, "[%d,%d]", (int32_t)(h >> 32), (int32_t)(h & 0xffffffffu)); }
 
 /* ---- a query: kind + arguments; result digest */
-typedef struct { int kind; int fn; int ia[3]; double da[3]; char s[64]; } Query;   /* kind 0: numeric API_TABLE[fn]; 1..: see run_query */
-typedef struct { int ok; int code; uint64_t h; } Result;
-static const char *QN[] = {"num", "CompoundParser", "GetCompoundDataNISTByName", "GetCompoundDataNISTByIndex", "GetRadioNuclideDataByIndex", "AtomicNumberToSymbol", "SymbolToAtomicNumber", "Crystal_GetCrystal", "Bragg_angle", "Crystal_F_H_StructureFactor", "Atomic_Factors", "Refractive_Index", "GetCompoundDataNISTList"};
-static Result run_query(const Query *q) {
+const char *QN[] = {"num", "CompoundParser", "GetCompoundDataNISTByName", "GetCompoundDataNISTByIndex", "GetRadioNuclideDataByIndex", "AtomicNumberToSymbol", "SymbolToAtomicNumber", "Crystal_GetCrystal", "Bragg_angle", "Crystal_F_H_StructureFactor", "Atomic_Factors", "Refractive_Index", "GetCompoundDataNISTList"};
+Result run_query(const Query *q) {
   Result r = {0, -1, H0}; xrl_error *e = NULL;
   switch (q->kind) {
   case 0: { double v = api_call(&API_TABLE[q->fn], q->ia, q->da, SIG_NS[API_TABLE[q->fn].sig] ? q->s : NULL, &e); r.h = fnv(H0, &v, 8); break; }
@@ -93,7 +91,7 @@ static Result reference(const Query *q) { Result r = {-8, -8, 0}; if (write(to_s
 static const double ES[] = {-1.0, 0.0, 1e-3, 0.5, 1.0, 4.0, 8.979, 17.44, 29.2, 59.5, 100.0, 300.0, 999.0, 1500.0};
 static const double AS[] = {0.0, 0.3, 0.7853981633974483, 1.5707963267948966, 2.7, 3.141592653589793, -1.0};
 static const char *STRS[] = {"H2O", "Ca5(PO4)3OH", "SiO2", "Water, Liquid", "Polyethylene", "H2O)", "", "Rf", "Fe", "Au", "U", "Xx", "Si", "Diamond", "nope"};
-static void random_query(Query *q) {
+void random_query(Query *q) {
   memset(q, 0, sizeof *q); int r = rndint(0, 99);
   if (r < 62) { int nf = 0; while (API_TABLE[nf].name) nf++; q->kind = 0; q->fn = rndint(0, nf - 1); const ApiFn *f = &API_TABLE[q->fn];
     q->ia[0] = rndint(0, 9) ? rndint(1, 98) : rndint(-2, 124); q->ia[1] = rndint(0, 5) ? rndint(f->mlo + 3 < 0 ? f->mlo + 3 : 0, f->mhi - 3) : rndint(f->mlo, f->mhi);
